@@ -7,11 +7,13 @@
 (*                          CONSTRAINT: histories of length MaxLen are checked, shorter ones    *)
 (*                          are expanded.)                                                     *)
 (*   MC_ObjTree_deep.cfg  : the complete reachable graph of registries (history hidden by      *)
-(*                          VIEW, no length bound).                                            *)
+(*                          VIEW, no length bound; invariants about `last` are then only       *)
+(*                          checked on the first path to each registry -- the hist configs     *)
+(*                          check them on every history).                                      *)
 (*   MC_ObjTree_devs2x.cfg: the same with the deviations on -- must violate (sanity: the          *)
 (*                          invariants can see the defects the deviations describe).           *)
 EXTENDS ObjTree, TLC
 CONSTANT MaxLen
 Bound == Len(hist) < MaxLen
-View  == <<reg, mirror, last>>
+View  == <<reg, mirror>>
 =============================================================================
